@@ -137,6 +137,14 @@ def _copy_state(state):
     return out
 
 
+def _fspath(p):
+    try:
+        p = os.fspath(p)
+    except TypeError:
+        return str(p)
+    return p.decode() if isinstance(p, bytes) else p
+
+
 class World(object):
     """Everything one run shares: directories, seams' callbacks, oracles."""
 
@@ -302,6 +310,7 @@ class World(object):
 
     # -- seam callbacks ----------------------------------------------------------
     def on_exists(self, path, result):
+        path = _fspath(path)
         s = self.sched
         me = s.current() if s else None
         if me is None:
@@ -322,6 +331,7 @@ class World(object):
         return a.data.get("owner") if a is not None else None
 
     def on_fileop(self, op, *paths):
+        paths = [_fspath(p) for p in paths]
         s = self.sched
         me = s.current() if s else None
         if me is None:
@@ -491,6 +501,7 @@ class World(object):
     # -- guarded loader ------------------------------------------------------------
     def load_library(self, path, a, kw):
         import ctypes
+        path = _fspath(path)
         s = self.sched
         me = s.current() if s else None
         if me is None:
@@ -679,6 +690,11 @@ def run_one(cfg, decisions=None, keep_events=False):
                                              (real["tempfile"], seams.TempfileProxy(world)),
                                              (real["ctypes"], seams.CtProxy(world))])
     kd.SAS_DLL_PATH = world.cache_dir
+    # (tempfile helpers reached without going through the proxy - TemporaryDirectory,
+    # NamedTemporaryFile - still create their files in this run's temporary directory)
+    import tempfile as _tempfile
+    saved_tempdir = _tempfile.tempdir
+    _tempfile.tempdir = world.tmp_dir
     G["names"][0] = 0
     import atexit as _atexit
     real_register = _atexit.register
@@ -713,6 +729,8 @@ def run_one(cfg, decisions=None, keep_events=False):
             return wrapper
         xdev_saved = (os.rename, os.replace, os.link)
         os.rename, os.replace, os.link = _guard(os.rename), _guard(os.replace), _guard(os.link)
+    run_prefix = run_dir + os.sep
+    restore_hooks = seams.install_global_hooks(world, os_proxy, lambda p: p.startswith(run_prefix))
     harness_error = None
     n_proc = len(cfg["actors"])
     solo_max = G.get("solo_max", 400)
@@ -814,9 +832,11 @@ def run_one(cfg, decisions=None, keep_events=False):
             harness_error = harness_error or str(exc)
         world.restore_pristine()
         _atexit.register = real_register
+        restore_hooks()
         if xdev_saved is not None:
             os.rename, os.replace, os.link = xdev_saved
         kd.SAS_DLL_PATH = saved_path
+        _tempfile.tempdir = saved_tempdir
         for name, val in rebound.items():
             setattr(kd, name, val)
         if had_open:
